@@ -472,3 +472,30 @@ def zero_state_rules(chk, S, rules):
             continue
         r3.require(not badp, f"{cls}.std differentiable at a zero Cholesky factor", f"row norms via {sorted({n for n, _ in norms})}",
                    f"row norms of the Cholesky factor via {badp}: the derivative is undefined (NaN) at zero rows, which is the default exact initial state", getattr(norms[0][1], "origin", None) or mod)
+    svd_solve_rules(chk, S)
+
+
+def svd_solve_rules(chk, S):
+    """Reverse-mode derivatives through an SVD-based least-squares solve are NaN at repeated singular values (e.g. equal noise levels)."""
+    from ..harness import EST
+
+    r5 = chk.rule("R-C16-5", "differentiable losses solve Bayes' rule with a solver whose reverse-mode derivative exists wherever its value does (no SVD-based least squares by default)", floor=1)
+    m = S.p.module(EST)
+    n = 0
+    for fname, fn in sorted(m.functions.items()):
+        if not fname.startswith("loss_") or "." in fname:
+            continue
+        a = fn.args
+        params = a.args + a.kwonlyargs
+        defaults = [None] * (len(a.args) - len(a.defaults)) + list(a.defaults) + list(a.kw_defaults)
+        for p_, d_ in zip(params, defaults):
+            if p_.arg != "solve_triu" or d_ is None:
+                continue
+            n += 1
+            src = ast.unparse(d_)
+            bad = src.endswith("lstsq_svd") or "lstsq" in src
+            r5.require(not bad, f"{fname} default solve", f"solve_triu defaults to {src}",
+                       f"solve_triu defaults to {src}: jnp.linalg.lstsq differentiates through an SVD, whose reverse-mode rule divides by differences of singular values -- "
+                       "NaN gradients when singular values coincide (equal observation-noise levels at an exact initial state)", f"{m.relpath}:{fn.lineno}")
+    if n == 0:
+        r5.unknown("loss constructors with a solve_triu parameter", "none found (anchor changed)", m.relpath)
